@@ -56,6 +56,8 @@ K_ENUM = "enumerator-operand-gives-enum-typed-arithmetic"
 K_SIZET = "sizeof-result-is-signed-long"
 K_EQPREC = "equality-parsed-at-relational-precedence"
 K_TERNCOND = "ternary-condition-converted-to-int"
+# C28 only (trees that ppci evaluates at run time, e.g. initialisers of local aggregates):
+K_NARROW = "narrow-int-mul-div-neg-and-float-casts"
 ALL_KEYS = (K_MISSING, K_FLOOR, K_NOWRAP, K_PACK, K_CHAR, K_SHIFT, K_PROMO, K_DECLIT, K_ENUM, K_SIZET, K_EQPREC, K_TERNCOND)
 
 
@@ -251,6 +253,8 @@ class Gen:
     def floatcast(self):
         r = self.r
         t = r.choice(ALL_TYPES)
+        if K_NARROW in self.avoid and t in SUBINT:
+            t = "int"
         whole = r.randrange(0, min(tmax(t), 1 << 20) + 1)
         frac = r.choice(("0", "5", "25", "75", "999"))
         txt = "%d.%s" % (whole, frac)
@@ -305,6 +309,8 @@ class Gen:
                 if v != exact:
                     tags.add(K_NOWRAP)
             ptype = a.ptype  # ppci does not promote the operand of unary + - ~
+            if ptype and op in "-~" and K_NARROW in self.avoid:
+                return None      # would become an 8/16-bit NEG/INV when evaluated at run time
         if tags & self.avoid:
             return None
         inner = a.emb(P_UNARY)
